@@ -398,10 +398,20 @@ theorem finish_cases {w w' : World σ} {o : Outcome (World σ × Bool)} {r : Res
   · exact Or.inl ⟨rfl, Or.inl ⟨_, rfl⟩⟩
   · exact Or.inl ⟨rfl, Or.inr rfl⟩
 
+theorem isSome_of_validateCoin {m : MsgCoin} (hv : m.validateBasic = true) : ∃ s, m.senderAddr = some s := by
+  simp [MsgCoin.validateBasic] at hv
+  exact Option.isSome_iff_exists.mp hv.1.2
+
+theorem isSome_of_validateERC20 {m : MsgERC20} (hv : m.validateBasic = true) : ∃ r, m.receiverAddr = some r := by
+  simp [MsgERC20.validateBasic] at hv
+  exact Option.isSome_iff_exists.mp hv.1.2
+
+/-- Stage 1 then stage 2: an accepted message was accepted by `ValidateBasic`, so the handler's own (error-dropping)
+parse yields exactly the address `sdk.AccAddressFromBech32` reads from the message. -/
 theorem deliverCoin_cases {B : Addr → Behaviour σ} {w w' : World σ} {m : MsgCoin} {r : Res}
     (h : deliverCoin B w m = (w', r)) :
     (w' = w ∧ ((∃ c, r = .rejected c) ∨ r = .panicked)) ∨
-    ∃ s cl, m.validateBasic = true ∧ m.sender = some s ∧
+    ∃ s cl, m.validateBasic = true ∧ m.senderAddr = some s ∧
       handleCoin B w m.denom m.amount.toNat (hexToAddr m.receiver) s = .ok (w', cl) ∧
       r = (if cl then .cleaned else .converted) := by
   unfold deliverCoin at h
@@ -409,18 +419,19 @@ theorem deliverCoin_cases {B : Addr → Behaviour σ} {w w' : World σ} {m : Msg
   · injection h with h1 h2; subst h1; subst h2; exact Or.inl ⟨rfl, Or.inl ⟨_, rfl⟩⟩
   · rename_i hv
     simp at hv
-    split at h
-    · injection h with h1 h2; subst h1; subst h2; exact Or.inl ⟨rfl, Or.inl ⟨_, rfl⟩⟩
-    · rename_i s hs
-      rcases finish_cases h with h | ⟨h1, h2⟩ | ⟨h1, h2⟩
-      · exact Or.inl h
-      · exact Or.inr ⟨s, false, hv, hs, h1, by simp [h2]⟩
-      · exact Or.inr ⟨s, true, hv, hs, h1, by simp [h2]⟩
+    obtain ⟨s, hs⟩ := isSome_of_validateCoin hv
+    have hp : handlerAddr m.sender = s := by
+      simp only [handlerAddr]; simp only [MsgCoin.senderAddr] at hs; rw [hs]; rfl
+    rw [hp] at h
+    rcases finish_cases h with h | ⟨h1, h2⟩ | ⟨h1, h2⟩
+    · exact Or.inl h
+    · exact Or.inr ⟨s, false, hv, hs, h1, by simp [h2]⟩
+    · exact Or.inr ⟨s, true, hv, hs, h1, by simp [h2]⟩
 
 theorem deliverERC20_cases {B : Addr → Behaviour σ} {w w' : World σ} {m : MsgERC20} {r : Res}
     (h : deliverERC20 B w m = (w', r)) :
     (w' = w ∧ ((∃ c, r = .rejected c) ∨ r = .panicked)) ∨
-    ∃ rc cl, m.validateBasic = true ∧ m.receiver = some rc ∧
+    ∃ rc cl, m.validateBasic = true ∧ m.receiverAddr = some rc ∧
       handleERC20 B w m.contract m.denom m.amount.toNat rc (hexToAddr m.sender) = .ok (w', cl) ∧
       r = (if cl then .cleaned else .converted) := by
   unfold deliverERC20 at h
@@ -428,13 +439,14 @@ theorem deliverERC20_cases {B : Addr → Behaviour σ} {w w' : World σ} {m : Ms
   · injection h with h1 h2; subst h1; subst h2; exact Or.inl ⟨rfl, Or.inl ⟨_, rfl⟩⟩
   · rename_i hv
     simp at hv
-    split at h
-    · injection h with h1 h2; subst h1; subst h2; exact Or.inl ⟨rfl, Or.inl ⟨_, rfl⟩⟩
-    · rename_i s hs
-      rcases finish_cases h with h | ⟨h1, h2⟩ | ⟨h1, h2⟩
-      · exact Or.inl h
-      · exact Or.inr ⟨s, false, hv, hs, h1, by simp [h2]⟩
-      · exact Or.inr ⟨s, true, hv, hs, h1, by simp [h2]⟩
+    obtain ⟨s, hs⟩ := isSome_of_validateERC20 hv
+    have hp : handlerAddr m.receiver = s := by
+      simp only [handlerAddr]; simp only [MsgERC20.receiverAddr] at hs; rw [hs]; rfl
+    rw [hp] at h
+    rcases finish_cases h with h | ⟨h1, h2⟩ | ⟨h1, h2⟩
+    · exact Or.inl h
+    · exact Or.inr ⟨s, false, hv, hs, h1, by simp [h2]⟩
+    · exact Or.inr ⟨s, true, hv, hs, h1, by simp [h2]⟩
 
 /-! ## bank effects in functional form -/
 
@@ -893,8 +905,8 @@ theorem erc20_rejected_unchanged {B : Addr → Behaviour σ} {w w' : World σ} {
 `m.denom`, the receiver's reported token balance rises by exactly `amount`, nothing else in the bank moves
 (`CoinViaModule` / `CoinViaExternal` list every component), for ANY token behaviour. -/
 theorem coin_exact {B : Addr → Behaviour σ} {w w' : World σ} {m : MsgCoin} (hw : WellFormed w)
-    (h : deliverCoin B w m = (w', .converted)) (hs : m.sender ≠ some moduleAddr) :
-    ∃ s j q st b0, m.sender = some s ∧ 0 < m.amount ∧ Gate w m.denom m.denom j q (hexToAddr m.receiver) ∧
+    (h : deliverCoin B w m = (w', .converted)) (hs : m.senderAddr ≠ some moduleAddr) :
+    ∃ s j q st b0, m.senderAddr = some s ∧ 0 < m.amount ∧ Gate w m.denom m.denom j q (hexToAddr m.receiver) ∧
       w.code q.addr = true ∧
       ((q.owner = .module ∧ CoinViaModule B w w' q m.denom m.amount.toNat (hexToAddr m.receiver) s st b0) ∨
        (q.owner = .external ∧ CoinViaExternal B w w' q m.denom m.amount.toNat (hexToAddr m.receiver) s st b0)) := by
@@ -922,7 +934,7 @@ the sender's reported token balance falls by exactly `amount` and the coins leav
 the module's reported token balance rises by exactly `amount` and exactly `amount` vouchers are minted. -/
 theorem erc20_exact {B : Addr → Behaviour σ} {w w' : World σ} {m : MsgERC20} (hw : WellFormed w)
     (h : deliverERC20 B w m = (w', .converted)) :
-    ∃ rc j q st t0, m.receiver = some rc ∧ 0 < m.amount ∧ Gate w m.contract m.denom j q rc ∧
+    ∃ rc j q st t0, m.receiverAddr = some rc ∧ 0 < m.amount ∧ Gate w m.contract m.denom j q rc ∧
       w.code q.addr = true ∧
       ((q.owner = .module ∧ ERC20ViaModule B w w' q m.denom m.amount.toNat rc (hexToAddr m.sender) st t0) ∨
        (q.owner = .external ∧ ERC20ViaExternal B w w' q m.denom m.amount.toNat rc (hexToAddr m.sender) st t0)) := by
@@ -964,7 +976,7 @@ theorem coin_cleaned {B : Addr → Behaviour σ} {w w' : World σ} {m : MsgCoin}
 
 theorem erc20_cleaned {B : Addr → Behaviour σ} {w w' : World σ} {m : MsgERC20} (hw : WellFormed w)
     (h : deliverERC20 B w m = (w', .cleaned)) :
-    ∃ rc j q, m.receiver = some rc ∧ Gate w m.contract m.denom j q rc ∧ w.code q.addr = false ∧
+    ∃ rc j q, m.receiverAddr = some rc ∧ Gate w m.contract m.denom j q rc ∧ w.code q.addr = false ∧
       w.deletePair q = some w' ∧ w'.bank = w.bank ∧ w'.tok = w.tok ∧ w'.pairs j = none := by
   rcases deliverERC20_cases h with ⟨_, h2⟩ | ⟨rc, cl, hv, hsd, hh, hr⟩
   · rcases h2 with ⟨c, h2⟩ | h2 <;> cases h2
@@ -979,6 +991,47 @@ theorem erc20_cleaned {B : Addr → Behaviour σ} {w w' : World σ} {m : MsgERC2
     | viaModule hcl _ _ _ => cases hcl
     | viaExternal hcl _ _ _ => cases hcl
 
+
+/-! ## Theorem `convert_receiver_named`: the credited / debited account is the one NAMED IN THE MESSAGE -/
+
+theorem accAddressFromBech32_some {r : Option Bech32} {a : Addr} (h : accAddressFromBech32 r = some a) :
+    ∃ b, r = some b ∧ b.hrp = chainPrefix ∧ b.bytes = a := by
+  unfold accAddressFromBech32 at h
+  split at h
+  · cases h
+  · rename_i b
+    split at h
+    · rename_i hc
+      injection h with h
+      exact ⟨b, rfl, hc.1, h⟩
+    · cases h
+
+/-- An accepted `MsgConvertERC20` pays out to exactly the account whose bytes a prefix-agnostic bech32 decode of the
+receiver string yields (and that string carries the chain's prefix). This rests on stage 1 (`ValidateBasic` enforcing
+the chain prefix): the handler itself drops the parse error and would pay to the EMPTY address. -/
+theorem convert_receiver_named {B : Addr → Behaviour σ} {w w' : World σ} {m : MsgERC20} (hw : WellFormed w)
+    (h : deliverERC20 B w m = (w', .converted)) :
+    ∃ b j q st t0, m.receiver = some b ∧ b.hrp = chainPrefix ∧ Gate w m.contract m.denom j q b.bytes ∧
+      ((q.owner = .module ∧ ERC20ViaModule B w w' q m.denom m.amount.toNat b.bytes (hexToAddr m.sender) st t0) ∨
+       (q.owner = .external ∧ ERC20ViaExternal B w w' q m.denom m.amount.toNat b.bytes (hexToAddr m.sender) st t0)) := by
+  obtain ⟨rc, j, q, st, t0, hr, _, g, _, hor⟩ := erc20_exact hw h
+  obtain ⟨b, hb, hp, rfl⟩ := accAddressFromBech32_some hr
+  exact ⟨b, j, q, st, t0, hb, hp, g, hor⟩
+
+/-- An accepted `MsgConvertCoin` takes the coins from exactly the account named (bech32, chain prefix) as sender. -/
+theorem convert_sender_named {B : Addr → Behaviour σ} {w w' : World σ} {m : MsgCoin} (hw : WellFormed w)
+    (h : deliverCoin B w m = (w', .converted)) (hs : m.senderAddr ≠ some moduleAddr) :
+    ∃ b j q st b0, m.sender = some b ∧ b.hrp = chainPrefix ∧
+      ((q.owner = .module ∧ CoinViaModule B w w' q m.denom m.amount.toNat (hexToAddr m.receiver) b.bytes st b0) ∨
+       (q.owner = .external ∧ CoinViaExternal B w w' q m.denom m.amount.toNat (hexToAddr m.receiver) b.bytes st b0)) ∧
+      w.pairs j = some q := by
+  obtain ⟨s, j, q, st, b0, hr, _, g, _, hor⟩ := coin_exact hw h hs
+  obtain ⟨b, hb, hp, rfl⟩ := accAddressFromBech32_some hr
+  exact ⟨b, j, q, st, b0, hb, hp, hor, g.pair⟩
+
+/-- Without stage 1 the handler is not safe: a receiver string of a foreign prefix reaches it as the empty address. -/
+theorem handler_drops_foreign_prefix (b : Bech32) (h : b.hrp ≠ chainPrefix) : handlerAddr (some b) = "" := by
+  simp [handlerAddr, accAddressFromBech32, h]
 
 /-! ### the same at handler level (the ICS-20 hook calls `ConvertCoin` without `ValidateBasic`) -/
 
@@ -1171,31 +1224,31 @@ theorem gated_coin {B : Addr → Behaviour σ} {w : World σ} {m : MsgCoin}
   unfold deliverCoin
   split
   · exact ⟨_, rfl⟩
-  · split
-    · exact ⟨_, rfl⟩
-    · rename_i s _
-      obtain ⟨c, hc⟩ := mintingEnabled_gate (s := s) (denom := m.denom) hg
-      exact ⟨c, by simp [handleCoin, hc, finish]⟩
+  · obtain ⟨c, hc⟩ := mintingEnabled_gate (s := handlerAddr m.sender) (denom := m.denom) hg
+    exact ⟨c, by simp [handleCoin, hc, finish]⟩
 
 /-- The same for `MsgConvertERC20` (the pair is the one the contract address resolves to). -/
 theorem gated_erc20 {B : Addr → Behaviour σ} {w : World σ} {m : MsgERC20}
     (hg : w.enabled = false ∨ (∃ i p, w.pairId m.contract = some i ∧ w.pairs i = some p ∧ p.enabled = false) ∨
-          (∃ rc, m.receiver = some rc ∧ w.bank.blocked rc = true)) :
+          (∃ rc, m.receiverAddr = some rc ∧ w.bank.blocked rc = true)) :
     ∃ c, deliverERC20 B w m = (w, .rejected c) := by
   unfold deliverERC20
   split
   · exact ⟨_, rfl⟩
-  · split
-    · exact ⟨_, rfl⟩
-    · rename_i rc hrc
-      have hg' : w.enabled = false ∨ (∃ i p, w.pairId m.contract = some i ∧ w.pairs i = some p ∧ p.enabled = false) ∨
-          w.bank.blocked rc = true := by
-        rcases hg with h | h | ⟨rc', h1, h2⟩
-        · exact Or.inl h
-        · exact Or.inr (Or.inl h)
-        · rw [hrc] at h1; injection h1 with h1; subst h1; exact Or.inr (Or.inr h2)
-      obtain ⟨c, hc⟩ := mintingEnabled_gate (s := hexToAddr m.sender) (denom := m.denom) hg'
-      exact ⟨c, by simp [handleERC20, hc, finish]⟩
+  · rename_i hv
+    simp at hv
+    obtain ⟨rc, hrc⟩ := isSome_of_validateERC20 hv
+    have hp : handlerAddr m.receiver = rc := by
+      simp only [handlerAddr]; simp only [MsgERC20.receiverAddr] at hrc; rw [hrc]; rfl
+    rw [hp]
+    have hg' : w.enabled = false ∨ (∃ i p, w.pairId m.contract = some i ∧ w.pairs i = some p ∧ p.enabled = false) ∨
+        w.bank.blocked rc = true := by
+      rcases hg with h | h | ⟨rc', h1, h2⟩
+      · exact Or.inl h
+      · exact Or.inr (Or.inl h)
+      · rw [hrc] at h1; injection h1 with h1; subst h1; exact Or.inr (Or.inr h2)
+    obtain ⟨c, hc⟩ := mintingEnabled_gate (s := hexToAddr m.sender) (denom := m.denom) hg'
+    exact ⟨c, by simp [handleERC20, hc, finish]⟩
 
 /-- Non-positive amounts never get past `ValidateBasic`. -/
 theorem nonpositive_rejected_coin {B : Addr → Behaviour σ} {w : World σ} {m : MsgCoin} (h : m.amount ≤ 0) :
@@ -1240,7 +1293,7 @@ structure ModInv (B : Addr → Behaviour σ) (w : World σ) : Prop where
 
 /-- No action is signed by the aggregate module account (it has no key). -/
 def Action.signed : Action → Prop
-  | .coin m => m.sender ≠ some moduleAddr
+  | .coin m => m.senderAddr ≠ some moduleAddr
   | .ics20 p => isHexAddress p.voucher = false     -- IBC vouchers are `ibc/<hash>`
   | .userTransfer _ c _ _ => c ≠ moduleAddr
   | .userMint _ c _ _ => c ≠ moduleAddr
@@ -1465,7 +1518,7 @@ theorem modInv_erc20ViaExternal {B : Addr → Behaviour σ} {w w' : World σ} {q
 
 
 theorem modInv_coin {B : Addr → Behaviour σ} {w : World σ} {m : MsgCoin} (hI : ModInv B w)
-    (hs : m.sender ≠ some moduleAddr) : ModInv B (deliverCoin B w m).1 := by
+    (hs : m.senderAddr ≠ some moduleAddr) : ModInv B (deliverCoin B w m).1 := by
   cases hr : deliverCoin B w m with
   | mk w' r =>
     cases r with
@@ -1770,7 +1823,7 @@ theorem extInv_handleCoin {B : Addr → Behaviour σ} {H : Addr → Prop} {V : D
         rw [h1]; exact hI.backed i p hp ho hHp L hn hL
 
 theorem extInv_coin {B : Addr → Behaviour σ} {H : Addr → Prop} {V : Denom → Prop} {w : World σ} {m : MsgCoin}
-    (hI : ExtInv B H V w) (hs : m.sender ≠ some moduleAddr) : ExtInv B H V (deliverCoin B w m).1 := by
+    (hI : ExtInv B H V w) (hs : m.senderAddr ≠ some moduleAddr) : ExtInv B H V (deliverCoin B w m).1 := by
   cases hr : deliverCoin B w m with
   | mk w' r =>
     rcases deliverCoin_cases hr with ⟨h1, _⟩ | ⟨s, cl, _, hsd, hh, _⟩
@@ -1949,7 +2002,7 @@ theorem external_accepted_same_delta_erc20 {B : Addr → Behaviour σ} {w w' : W
 the receiver's reported balance rises by exactly `amount` AND the module's reported balance falls by exactly `amount`
 — the voucher supply and the escrow move by the same amount. -/
 theorem external_accepted_same_delta_coin {B : Addr → Behaviour σ} {w w' : World σ} {m : MsgCoin}
-    (hw : WellFormed w) (h : deliverCoin B w m = (w', .converted)) (hs : m.sender ≠ some moduleAddr) :
+    (hw : WellFormed w) (h : deliverCoin B w m = (w', .converted)) (hs : m.senderAddr ≠ some moduleAddr) :
     ∃ j q, w.pairId m.denom = some j ∧ w.pairs j = some q ∧
       (q.owner = .external →
         w'.bank.supply m.denom + m.amount.toNat = w.bank.supply m.denom ∧
